@@ -14,18 +14,24 @@ namespace Gittuf
 
 /-! ### fnmatch with flags 0 (`*` crosses `/`), for the pattern forms generated:
 literal characters, `*`, `?`. -/
-def globAux : List Char → List Char → Bool
-  | [], [] => true
-  | [], _ :: _ => false
-  | '*' :: ps, [] => globAux ps []
-  | '*' :: ps, c :: cs => globAux ps (c :: cs) || globAux ('*' :: ps) cs
-  | '?' :: _, [] => false
-  | '?' :: ps, _ :: cs => globAux ps cs
-  | _ :: _, [] => false
-  | p :: ps, c :: cs => p == c && globAux ps cs
-termination_by p s => (p.length, s.length)
+def globAux : Nat → List Char → List Char → Bool
+  | 0, _, _ => false
+  | _ + 1, [], [] => true
+  | _ + 1, [], _ :: _ => false
+  | f + 1, '*' :: ps, [] => globAux f ps []
+  | f + 1, '*' :: ps, c :: cs => globAux f ps (c :: cs) || globAux f ('*' :: ps) cs
+  | _ + 1, '?' :: _, [] => false
+  | f + 1, '?' :: ps, _ :: cs => globAux f ps cs
+  | _ + 1, _ :: _, [] => false
+  | f + 1, p :: ps, c :: cs => p == c && globAux f ps cs
 
-def glob (pattern target : String) : Bool := globAux pattern.toList target.toList
+/-- structural recursion on a fuel argument (each step consumes a pattern or a target character,
+so `|pattern| + |target| + 1` is enough); kernel-reducible, unlike well-founded recursion -/
+def glob (pattern target : String) : Bool :=
+  globAux (pattern.toList.length + target.toList.length + 1) pattern.toList target.toList
+
+/-- `strings.HasPrefix`, on character lists so that it reduces in the kernel -/
+def hasPrefix (s pre : String) : Bool := pre.toList.isPrefixOf s.toList
 
 structure PrincipalSpec where
   id         : PId
@@ -185,7 +191,7 @@ def Policy.userRules (P : Policy) : List Rule :=
   (P.files.flatMap (·.rules)).filter (fun r => r.name != allowRuleName)
 
 def Policy.hasFileRule (P : Policy) : Bool :=
-  P.userRules.any (fun r => r.patterns.any (fun p => p.startsWith "file:"))
+  P.userRules.any (fun r => r.patterns.any (fun p => hasPrefix p "file:"))
 
 def Policy.duplicateRuleNames (P : Policy) : Bool :=
   let names := P.userRules.map (·.name)
